@@ -864,7 +864,7 @@ func genC07Fifo(rt *rapid.T) c07FifoCase {
 	left := total
 	c.PauseAt = -1
 	max := pick(rt, "maxchunk", []int{1, 5, 64, 700, 1 << 16})
-	if rapid.IntRange(0, 399).Draw(rt, "longpause") == 0 {
+	if rapid.IntRange(0, 399).Draw(rt, "longpause") == 257 { // (rapid favours small values: an interior value keeps this rare)
 		// a writer that stalls in the middle of a record for longer than any polling interval
 		max = 40
 		c.PauseMs = pick(rt, "pausems", []int{1100, 2100})
